@@ -31,7 +31,7 @@ def build_scenario(rng: random.Random, mode: str):
     U = 4 * tps
     Q = F(5, tps)            # the quantum: 20 units, a quarter of the memory read in one I/O tick; a*Q is an exact float
     if mode == "swarm":        # many small containers start at once in an overcommitted pool: ten and more victims in one tick
-        npools, cpu, ram = 1, rng.choice([16, 24, 32]), Q * rng.choice([16, 24, 32, 48])
+        npools, cpu, ram = 1, rng.choice([16, 24, 32, 80]), Q * rng.choice([16, 24, 32, 48])
         oc, multi = True, False
     elif mode == "pressure":
         npools, cpu, ram = rng.choice([1, 1, 2]), rng.choice([4, 6, 8]), Q * rng.choice([8, 12, 16, 24, 40])
@@ -54,7 +54,7 @@ def build_scenario(rng: random.Random, mode: str):
                   allow_memory_overcommit=oc, multi_operator_containers=multi)
     idx = PipeIndex()
     exact = {}
-    npipes = rng.randint(2, 6) if mode == "pressure" else rng.randint(14, 30) if mode == "swarm" else rng.randint(1, 4)
+    npipes = rng.randint(2, 6) if mode == "pressure" else (rng.randint(70, 95) if cpu >= 80 else rng.randint(14, 30)) if mode == "swarm" else rng.randint(1, 4)
     for pi in range(npipes):
         p = Pipeline(f"p{pi + 1}", rng.choice(list(Priority)))
         nops = rng.randint(1, 3) if mode == "pressure" else rng.randint(2, 4) if mode == "susp" else 1 if mode == "swarm" else rng.randint(1, 4)
@@ -68,7 +68,7 @@ def build_scenario(rng: random.Random, mode: str):
                 if rng.random() < 0.2:
                     base = F(0)
                 if mode == "swarm":
-                    fixed = Q * rng.choice([2, 3, 4, 5, 6, 8])
+                    fixed = Q * rng.choice([2, 3, 4, 5, 6, 8]) if cpu < 80 else Q * rng.choice([F(1, 2), F(1, 2), 1])    # a large herd of lightly loaded containers
                     kk = 0
                     base = F(4 * rng.choice([2, 3, 5]) + 1, 4 * tps)
                 elif mode == "pressure":
@@ -109,7 +109,12 @@ def run_one(seed: int, tid: int, mode: str):
     nticks = rng.randint(5, 40) if mode != "swarm" else rng.randint(6, 14)
     pipes = list(zip(idx.pipes, idx.ops))
     seen_ctr = []   # real container ids seen so far (for bogus suspends)
+    distract_at = rng.randrange(nticks) if rng.random() < 0.25 else -1
     for t in range(nticks):
+        if t == distract_at:
+            # another simulation is set up in the same process while this one is live: it must not disturb this executor
+            from eudoxia.executor import Executor as _Ex
+            _Ex(num_pools=1, cpus_per_pool=2, ram_gb_per_pool=4.0, ticks_per_second=tps)
         sus = []
         for kpool, R in enumerate(ex.pools):
             for c in R.active_containers:
@@ -127,7 +132,7 @@ def run_one(seed: int, tid: int, mode: str):
         if not valid and rng.random() < 0.02 and seen_ctr:
             sus.append(Suspend(rng.choice(seen_ctr + ["c0"]), rng.randrange(npools)))   # any container ever seen / unknown
         specs = []
-        for _ in range(rng.choice([0, 0, 1, 1, 2]) if mode not in ("pressure", "swarm") else rng.choice([0, 1, 1, 2, 3]) if mode == "pressure" else rng.choice([0, 6, 12, 16])):
+        for _ in range(rng.choice([0, 0, 1, 1, 2]) if mode not in ("pressure", "swarm") else rng.choice([0, 1, 1, 2, 3]) if mode == "pressure" else (rng.choice([0, 6, 12, 16]) if cpu < 80 else rng.choice([0, 30, 40]))):
             pi = rng.randrange(len(pipes))
             p, ops = pipes[pi]
             legal = [i for i, o in enumerate(ops) if o.state() in (S.PENDING, S.FAILED)]
@@ -156,7 +161,7 @@ def run_one(seed: int, tid: int, mode: str):
             Q = k["Q"]
             if mode == "swarm":
                 c = 1
-                r = Q * rng.choice([6, 8, 9, 12, 16, 20, 25, 32])
+                r = Q * rng.choice([6, 8, 9, 12, 16, 20, 25, 32]) if cpu < 80 else Q * rng.choice([16, 32, 32, 64])
             elif mode == "pressure":
                 c = 1
                 r = Q * rng.choice([2, 4, 5, 8, 9, 12, 13, 16, 21, 24, 32, 64])
